@@ -100,6 +100,54 @@ def registry():
                                       'index analysis of the coefficient loops). "No write" is stronger than bit-identity of the '
                                       'arguments. NOT decided: numerical equality of x op x with a copy.',
                           assumptions=['library summary tables of verif/effects.py; NumPy ufunc overlap handling for whole-array statements'])
+    if G is not None and S is not None:
+        ELEM = ['_exp', '_log', '_sqrt', '_sincos', '_tansec2', '_arcsin', '_arccos', '_arctan', '_sinhcosh', '_tanhsech2', '_sign',
+                '_botched_clip', '_dawsn', '_absolute', '_expm1', '_log1p', '_erf', '_erfi', '_logit', '_expit', '_gammaln', '_psi',
+                '_polygamma', '_hyperu']
+        reg['C01'] = dict(
+            rules=[G.rule_grade('C01'), lambda ctx: S.rule_base(ctx, ELEM, 'C01.base'), S.rule_wrap],
+            explanation='Static decision of necessary structural conditions of the elementary-function kernels, for every path and symbolically '
+                        'in D, P and shape: each coefficient assignment is homogeneous in the power-series grading (O3) with maximal summation '
+                        'ranges (O4: no missing top/bottom term; decided by an affine index calculus, violations confirmed by a witness '
+                        'valuation of the index model); the zeroth coefficient is computed by the NumPy/SciPy function the kernel is named '
+                        'after (C01.base, through nthderiv.basecase / functools.partial); every wrapper UTPM.NAME calls the kernel of NAME on '
+                        'fresh outputs and returns NAME\'s output slot, and the dispatcher reaches it (C01.wrap). NOT decided: numeric '
+                        'factors and signs inside a recurrence, the closed forms of nthderiv for n >= 1, rounding.',
+            assumptions=['the weight calculus of DESIGN.md sec. 2.3 (an algebraic invariant of truncated power series)',
+                         'kernel naming convention _NAME <-> NumPy/SciPy function NAME'])
+        reg['C02'] = dict(
+            rules=[G.rule_grade('C02'), S.rule_kinds, S.rule_reflect],
+            explanation='Static decision of structural conditions of the arithmetic operators: the convolution kernels and all eleven operator '
+                        'bodies are homogeneous in the grading (O3: in particular a scalar/array constant meets coefficient 0 only for +,- '
+                        'and every coefficient for *,/) with maximal ranges (O4); evidence rules on constants and result dtypes (C02.kinds); '
+                        'reflected forms delegate with the right algebra and lift constants through __add__ (C02.reflect); '
+                        '__array_priority__ > 0. NOT decided: exactness of floating-point results; broadcasting of values.',
+            assumptions=['NumPy type-promotion and broadcasting semantics; the weight calculus'])
+        reg['C07'] = dict(
+            rules=[G.rule_grade('C07'), S.rule_linalg_kinds, S.rule_compound,
+                   lambda ctx: S.rule_base(ctx, ['_inv', '_solve', '_solve_non_UTPM_x'], 'C07.base')],
+            explanation='Static decision of structural conditions of the linear-algebra kernels: dot/outer/inv/solve (all operand-kind '
+                        'variants) are homogeneous (O3) with maximal ranges (O4); UTPM.dot/outer/solve select the kernel whose suffix names '
+                        'the raw operand and pass .data / raw operands in kernel order (C07.kinds); det/logdet/Pade expm use only graded '
+                        'public operations, pivot helpers touch order 0 only (C07.compound); base points use numpy.linalg.inv/solve. '
+                        'NOT decided: output-shape formulas of dot for N-D operands, Pade coefficients, values.',
+            assumptions=['the weight calculus'])
+        reg['C08'] = dict(
+            rules=[G.rule_grade('C08'), lambda ctx: S.rule_base(ctx, ['_cholesky', '_qr_rectangular', '_qr_full', '_eigh1'], 'C08.base')],
+            explanation='Static decision of structural conditions of the factorization recurrences: in _qr_rectangular, _qr_full, _cholesky, '
+                        '_eigh1, lu, lu2, lu_factor every residual (dF, dG, H, S, K) and every factor coefficient is homogeneous of the order '
+                        'being defined (O3) and the residual sums are maximal (O4); base points come from numpy.linalg.qr / scipy.linalg.qr / '
+                        'cholesky / eigh. Declared unanalysed (printed): _eigh (block deflation), UTPM.svd, UTPM.eig. NOT decided: the '
+                        'projections (PL, Proj, 0.5), triangularity, orthogonality, eigenvalue ordering - i.e. the defining equations.',
+            assumptions=['the weight calculus; declared summary of truncated_triple_dot (weight D, reads orders < D)'])
+        reg['C12'] = dict(
+            rules=[G.rule_grade('C12')],
+            explanation='Static decision, symbolic in the truncation degree: for every coefficient kernel (forward), every axis-0 index read or '
+                        'written lies in [0, D-1] for all loop values (O1; negative indices would silently wrap to the highest coefficients), '
+                        'every read is of a coefficient of weight <= the order being defined that is already available at that point (O2), no '
+                        'index depends on the truncation degree and guards on it are in a justified table (C12.D). Hence output order d '
+                        'depends on input orders <= d only. Declared unanalysed (printed): _eigh, svd, eig.',
+            assumptions=['affine index domain with Fourier-Motzkin style bound elimination; violations are reported only with a concrete witness valuation'])
     return reg
 
 
